@@ -72,8 +72,8 @@ pub fn classify(cfg: &ConfigSpec) -> (bool, Vec<&'static str>) {
     }
     if cfg.targets.iter().any(|t| t.path.ends_with('/')) {
         c.push("slash-terminated-target-path");
-        if cfg.targets.iter().any(|t| t.uses.iter().any(|u| u.ends_with('/') && cfg.targets.iter().any(|v| &v.path == u))) {
-            c.push("f11-shape-rewritten");
+        if cfg.targets.iter().any(|t| t.uses.iter().any(|u| !u.ends_with('/') && cfg.targets.iter().any(|v| v.path == format!("{}/", u)))) {
+            c.push("uses-names-slashed-target-without-slash");
         }
     }
     (cfg.targets.len() >= 2 && (sibling || uses_above || uses_inside), c)
@@ -229,10 +229,7 @@ pub fn check_cli(case: &Case, w: usize) -> CheckResult {
     Ok(info)
 }
 
-pub const F11_SIGNATURE: &str = "c10.f11.uses-names-slashed-target-dir";
-
-/// The one configuration shape the generators leave out (gen::build_config rewrites it):
-/// target written `app2/`, used by another target as `app2`.
+/// Regression case of finding F11 (fixed): target written `app2/`, used by another target as `app2`.
 pub fn f11_case() -> Case {
     let mut user = model::TargetSpec::new("é");
     user.uses = vec!["app2".into()];
@@ -252,12 +249,7 @@ pair, or a uses entry above/inside a target; distinct by SHA-256 of the case"
         .to_string();
     ctx.assumptions = vec!["edges are compared as a set of (from, to) target paths".into()];
     ctx.drive_all("golden", golden(), "golden regression cases", check);
-    ctx.drive_all("golden-f11", vec![f11_case()], "probe of known finding F11", |c: &Case, w| match check(c, w) {
-        Err(CheckError::Violation(v)) if v.signature == "c10.edge.missing" => {
-            Err(CheckError::Violation(Violation { signature: F11_SIGNATURE.to_string(), ..v }))
-        }
-        other => other,
-    });
+    ctx.drive_all("golden-f11", vec![f11_case()], "regression case of finding F11 (fixed)", check);
     let n = ctx.n(30_000, 1_000_000);
     ctx.drive("inproc", || strategy(10), n, check);
     ctx.drive("inproc-wide", || strategy(30), n / 10, check);
